@@ -10,7 +10,7 @@ import time
 import scipy.optimize as opt
 from numbers import Real
 from scipy.sparse import csr_matrix, coo_matrix, lil_matrix
-from scipy.linalg import sqrtm, eigh
+from scipy.linalg import eigh
 from collections.abc import Iterable, Sized
 # from typing import List
 
@@ -1905,7 +1905,10 @@ class Affine:
         else:
             raise ValueError('The input matrix must be semidefinite.')
 
-        sqrt_mat = np.real(sqrtm(sign*qmat))
+        # symmetric square root through the eigen-decomposition: scipy's sqrtm returns
+        # NaN for some singular semidefinite matrices (e.g. with a zero row and column)
+        eigvals, eigvecs = eigh(sign*np.asarray(qmat, dtype=float))
+        sqrt_mat = (eigvecs * np.sqrt(np.maximum(eigvals, 0))) @ eigvecs.T
         affine = sqrt_mat @ self.reshape(self.size)
 
         if sign == 1:
